@@ -221,16 +221,40 @@ func ExchangeCases(tier string, seed uint64) []ExCase {
 			})
 		}
 	}
-	// Via loop: the Via modifier returns martian.ErrorStatus{400} and sets req.Close
+	// Via loop: the Via modifier returns martian.ErrorStatus{400} and sets req.Close.
+	// The proxy's Via tag carries a random boundary: learn it from a first request.
 	add("mreq-via-loop", "mreq-err", func(e *Env) {
+		var seen []byte
+		got := make(chan struct{}, 1)
+		o := e.Peer(func(c net.Conn, n int) {
+			h, _ := ReadHead(c, 5*time.Second)
+			seen = h
+			got <- struct{}{}
+			c.Write([]byte(ReplyCL(200, "OK", "hi")))
+			buf := make([]byte, 64)
+			c.Read(buf)
+			c.Close()
+		})
 		e.Start(nil)
 		c := e.Client()
+		ex1 := Ex{Val: Val{}, Method: "GET", UpStatus: 200}
+		e.Do(c, getReq("http://"+o.Addr+"/learn"), false, &ex1)
+		<-got
+		via := ""
+		for _, l := range strings.Split(string(seen), "\r\n") {
+			if strings.HasPrefix(strings.ToLower(l), "via:") {
+				via = strings.TrimSpace(l[4:])
+			}
+		}
+		if via == "" {
+			e.Failf("origin saw no Via field: %q", seen)
+		}
 		f := NoFeat()
 		f.Status = 400
-		ex := Ex{Val: Val{MreqErr: true, ReqClose: true}, Method: "GET", Feat: f}
-		co := e.Do(c, getReq("http://127.0.0.1:9/x", "Via: 1.1 vfproxy"), false, &ex)
+		ex2 := Ex{Val: Val{MreqErr: true, ReqClose: true}, Method: "GET", Feat: f}
+		co := e.Do(c, getReq("http://127.0.0.1:9/x", "Via: "+via), false, &ex2)
 		e.End(c, co)
-		e.O.Exs = []Ex{ex}
+		e.O.Exs = []Ex{ex1, ex2}
 	})
 
 	// round trip fails
@@ -359,6 +383,41 @@ func ExchangeCases(tier string, seed uint64) []ExCase {
 		e.O.Exs = []Ex{ex}
 	})
 
+	// 101 to a request that asks to close (HTTP/1.0 client, or "Connection: close, Upgrade")
+	for _, k := range []string{"http10", "conn-close"} {
+		k := k
+		add("upgrade-101-"+k, "upgrade", func(e *Env) {
+			o := e.Peer(func(c net.Conn, n int) {
+				if _, err := ReadHead(c, 5*time.Second); err != nil {
+					c.Close()
+					return
+				}
+				c.Write([]byte("HTTP/1.1 101 Switching Protocols\r\nConnection: Upgrade\r\nUpgrade: vfproto\r\n\r\n"))
+				Echo(c)
+			})
+			e.Start(nil)
+			c := e.Client()
+			ex := Ex{Val: Val{St: 1, Rwc: true, ReqClose: true}, Method: "GET", UpStatus: 101}
+			var req string
+			if k == "http10" {
+				req = reqLine("GET", "http://"+o.Addr+"/ws", "HTTP/1.0", "Connection: Upgrade", "Upgrade: vfproto")
+			} else {
+				req = reqLine("GET", "http://"+o.Addr+"/ws", "HTTP/1.1", "Connection: close, Upgrade", "Upgrade: vfproto")
+			}
+			co := e.Do(c, req, false, &ex)
+			if co.P.Verdict == VComplete && co.P.Status == 101 {
+				c.Write([]byte("ping"))
+				buf := make([]byte, 4)
+				c.SetReadDeadline(time.Now().Add(500 * time.Millisecond))
+				if _, err := ioReadFull(c, buf); err == nil && string(buf) == "ping" {
+					e.Rig.Mark()
+				}
+			}
+			c.Close()
+			e.O.Exs = []Ex{ex}
+		})
+	}
+
 	// client aborts while downloading: origin sends a large body, client resets after the head
 	add("client-abort-download", "write-fail", func(e *Env) {
 		big := strings.Repeat("x", 8<<20)
@@ -393,7 +452,9 @@ func ExchangeCases(tier string, seed uint64) []ExCase {
 		c.Close()
 		// the round trip fails with an unexpected EOF on the request body; the error
 		// response may or may not still be writable (w is not determined: use W=9 "any")
-		e.O.Exs = []Ex{{Val: Val{Rt: 1, W: 9}, Method: "POST", Feat: NoFeat()}}
+		f := NoFeat()
+		f.OpErr = 1 // "readfrom tcp ...: unexpected EOF" is a *net.OpError
+		e.O.Exs = []Ex{{Val: Val{Rt: 1, W: 9}, Method: "POST", Feat: f}}
 		e.Rig.WaitEvents("wrote", 1, 3*time.Second)
 	})
 
